@@ -12,6 +12,8 @@ from .driver import quiet  # noqa: E402
 
 def tmax_for(steps, dt):
     """t_max such that int(t_max // dt + 1) == steps, robustly (mid-step)."""
+    if steps == 1:
+        return 0.0  # "one step" asked for the way people write it; int(0.0 // dt + 1) == 1, and 0.0 is falsy
     t = (steps - 1) * dt + 0.5 * dt
     assert int(t // dt + 1) == steps, (steps, dt, t)
     return t
